@@ -19,10 +19,23 @@ package c15
 //   - the object being built has a key shortcut whose type's root node is not a plain string literal
 //     (reference, or-shortcut, or a literal with {type}/{or}): K-C15-keyalias
 //   - an object / array EXAMPLE node carries a types-list ({or: […]}): K-C15-orcontainer (error)
+//   - the key the builder writes for a key shortcut (the example of its string type) equals, decoded, another key it
+//     writes into the same object (a literal key, or the example key of another shortcut, own or inherited): K-C15-keyclash
 
 import (
+	"encoding/json"
+
 	tg "verifharness/x/tgraph"
 )
+
+// decodedKey: the key a JSON string token stands for (the token itself when encoding/json cannot read it).
+func decodedKey(tok []byte) string {
+	var k string
+	if err := json.Unmarshal(tok, &k); err == nil {
+		return k
+	}
+	return string(tok)
+}
 
 type frame struct {
 	typ  string // type entered by this frame ("" = none)
@@ -39,6 +52,7 @@ type sim struct {
 	entered  map[string]bool
 	features map[string]bool
 	keyAlias bool
+	keyClash bool
 	cutOr    bool
 	cutArr   bool
 	cutReq   bool
@@ -117,6 +131,7 @@ func (s *sim) build(n *tg.Node, opt bool) ([]byte, *cut) {
 		}
 		buf := []byte{'{'}
 		first := true
+		emitted := map[string]bool{} // decoded key -> emitted by a shortcut
 		for _, p := range s.props(n, opt, 0) {
 			ex, c := s.build(p.Val, p.opt)
 			if s.err != "" {
@@ -148,6 +163,9 @@ func (s *sim) build(n *tg.Node, opt bool) ([]byte, *cut) {
 				if kt.Kind != tg.KLit || hasRules(kt) {
 					s.keyAlias = true
 				}
+				for _, f := range keyTypeFeatures(kt) {
+					s.features[f] = true
+				}
 				key, _ = s.build(kt, s.g.Opt(p.Key))
 				if s.err != "" {
 					return nil, nil
@@ -155,6 +173,13 @@ func (s *sim) build(n *tg.Node, opt bool) ([]byte, *cut) {
 			} else {
 				key = []byte(`"` + p.Key + `"`)
 			}
+			// the example key of a shortcut equals another key the builder writes into the same object
+			dk := decodedKey(key)
+			if byShortcut, dup := emitted[dk]; dup && (byShortcut || p.Shortcut) {
+				s.keyClash = true
+				s.features["key_shortcut_example_equals_another_key_of_the_object"] = true
+			}
+			emitted[dk] = emitted[dk] || p.Shortcut
 			if !first {
 				buf = append(buf, ',')
 			}
@@ -240,6 +265,8 @@ func (s *sim) class(g *tg.Graph, root *tg.Node, inh map[string]bool) string {
 		return "K-C15-uninhabited"
 	case s.keyAlias:
 		return "K-C15-keyalias"
+	case s.keyClash:
+		return "K-C15-keyclash"
 	case s.cutOr:
 		return "K-C15-or"
 	case s.cutArr:
